@@ -37,7 +37,8 @@ PIX = [1.25, 7.75, 3.0, 11.75, 5.25, 9.25]   # no half-integers: rounding after 
 def _mk_frame(spec, ao):
     k = spec["kind"]
     if k == "celestial":
-        ref = {"icrs": coord.ICRS(), "fk5": coord.FK5(), "galactic": coord.Galactic()}[spec["ref"]]
+        ref = {"icrs": coord.ICRS(), "fk5": coord.FK5(), "galactic": coord.Galactic(), "fk5_1975": coord.FK5(equinox="J1975"),
+               "fk4_1900": coord.FK4(equinox="B1900", obstime="B1920")}[spec["ref"]]
         un = tuple(u.Unit(x) for x in spec.get("units", ["deg", "deg"]))
         return cf.CelestialFrame(reference_frame=ref, axes_order=tuple(ao), unit=un, name=spec["name"])
     if k == "spectral":
@@ -68,7 +69,7 @@ def _build(case):
 def _obj_values(o, frame):
     """(kind, [values in the frame's units]) of a high-level object"""
     if isinstance(o, coord.SkyCoord):
-        s = o.transform_to(frame.reference_frame) if frame.reference_frame is not None else o
+        s = o.transform_to(frame.reference_frame, merge_attributes=False) if frame.reference_frame is not None else o
         return ("SkyCoord", [float(s.spherical.lon.to_value(frame.unit[0])), float(s.spherical.lat.to_value(frame.unit[1]))])
     if isinstance(o, time.Time):
         return ("Time", [float((o - frame.reference_frame).to_value(frame.unit[0]))])
@@ -330,7 +331,7 @@ def gen(rng, tier):
                 kind, sz = "spectral", 1
             spec = {"kind": kind, "name": "%s%d" % (kind[:4], j)}
             if kind == "celestial":
-                spec["ref"] = rng.choice(["icrs", "fk5", "galactic"])
+                spec["ref"] = rng.choice(["icrs", "fk5", "galactic", "fk5_1975", "fk4_1900"])   # frames with non-default attributes too
                 spec["units"] = rng.choice([["deg", "deg"], ["deg", "deg"], ["arcsec", "deg"], ["deg", "arcmin"], ["arcmin", "arcsec"]])
             if kind == "spectral":
                 spec["unit"] = rng.choice(["um", "nm", "Hz", "AA"])
@@ -354,8 +355,12 @@ def gen(rng, tier):
             total = len(aos[0])
         # separable exact transform with distinct values; Stokes axis must give a valid Stokes number, latitude must stay in range
         ab = [[float(rng.choice([1, 2, 3])), rng.choice([0.25, 1.5, 2.0, 4.75])] for _i in range(total)]
-        pix = PIX[:total]
+        # distinct, asymmetric starting pixels; some left of / below the array (negative), where rounding to pixel centres must floor
+        pix = rng.sample(PIX + [-3.2, -0.7, -12.4, -1.6], total) if rng.random() < 0.5 else PIX[:total]
         for s, ao in zip(subs, aos):
+            if s["kind"] == "celestial":
+                for i_ in ao:                # the affine stand-in for a sky projection is not periodic: keep longitudes in [0, 360)
+                    pix[i_] = abs(pix[i_])
             if s["kind"] == "stokes":
                 ab[ao[0]] = [1.0, 0.0]
                 pix[ao[0]] = float(rng.randint(1, 4))
